@@ -477,7 +477,11 @@ class Term:
                     return t
             elif t.is_var():
                 if t.name in inst.var_inst:
-                    return inst.var_inst[t.name]
+                    s = inst.var_inst[t.name]
+                    # The replacement must be closed and of the variable's type.
+                    if s.get_type() != t.T:
+                        raise TermException("subst: type of " + t.name + " does not match its replacement")
+                    return s
                 else:
                     return t
             elif t.is_const():
